@@ -469,6 +469,10 @@ def c05_run(ctx: Ctx):
         if k % 3 == 0:
             cases.append({"text": gen.sibling(m, ctx.rng).text(ctx.rng), "sibling": True})
             ctx.count("siblings")
+        elif k % 3 == 1:
+            # ... or by the same model after a refactoring of its intermediates (identical derivative lines)
+            cases.append({"text": gen.refactored(m, ctx.rng).text(ctx.rng), "sibling": True})
+            ctx.count("refactored_siblings")
         for case in cases:
             with common.time_limit(ctx, 40):
                 c05_case(ctx, case)
